@@ -229,6 +229,30 @@ impl Prop for C02 {
 		Ok(())
 	}
 
+	fn enumerate(_tier: Tier, shard: usize, nshards: usize, f: &mut dyn FnMut(Case, bool) -> bool) -> Vec<&'static str> {
+		// every Unicode scalar value the IRI grammar allows, in every component slot at once
+		for c in 0xA0u32..0x110000 {
+			if c as usize % nshards != shard {
+				continue;
+			}
+			let ch = match char::from_u32(c) {
+				Some(ch) => ch,
+				None => continue,
+			};
+			let text = if abnf::is_ucschar(c) {
+				format!("s://u{ch}@h{ch}/p{ch}/{ch}?q{ch}#f{ch}")
+			} else if abnf::is_iprivate(c) {
+				format!("//h/p?{ch}q{ch}#f")
+			} else {
+				continue;
+			};
+			if !f(Case { fam: Fam::Iri, text }, false) {
+				return vec![];
+			}
+		}
+		vec!["every ucschar / iprivate scalar value in every component slot it is allowed in (IRI family)"]
+	}
+
 	fn floors(_tier: Tier) -> Vec<(&'static str, u64)> {
 		vec![
 			("judged", 100_000),
